@@ -169,11 +169,46 @@ def relevant(prop, fields, a, b, opline=""):
                 return True
             if int(a.get("cur", "0")) != sum(int(x) for x in ra) or int(a.get("len", "0")) != len(oa):
                 return True
-            if [int(x.split(":")[5]) for x in oa] != [int(x) for x in ra]:
+            def stale(o_, r_):
+                return {(x.split(":")[0], x.split(":")[5], y) for x, y in zip(o_, r_) if x.split(":")[5] != y}
+            ob0, rb0 = _items(b.get("ord")), _items(b.get("rs"))
+            if stale(oa, ra) - (stale(ob0, rb0) if ob0 is not None and rb0 is not None and len(ob0) == len(rb0) else set()):
+                # a recorded size that is not entry_size(key, value) — unless the model carries the very same stale
+                # record (a value mutated by a closure whose size estimate then panicked: §13.6)
                 return True
             # same contents but another total / other sizes
             ob = _items(b.get("ord"))
             return ob is not None and [x.split(":")[:5] for x in oa] == [x.split(":")[:5] for x in ob] and bool(set(fields) & {"cur", "rs", "ord"})
+        if prop in ("C03", "C04", "C10") and "ret" not in fields and "st" not in fields:
+            oa, ob = _items(a.get("ord")), _items(b.get("ord"))
+            if oa is not None and ob is not None:
+                ka = [":".join(x.split(":")[:5]) for x in oa]
+                kb = [":".join(x.split(":")[:5]) for x in ob]
+                drops = lambda line: [e for e in _evs(line.get("ev")) if e.startswith(("dK:", "dV:"))]
+                left = lambda x, gone: ("dK:" + x.split(":")[2]) in gone or ("dV:" + x.split(":")[4]) in gone
+                if prop == "C03" and sorted(ka) == sorted(kb) and drops(a) == drops(b):
+                    # eviction: the same entries left, in the same order — another recency order of those that
+                    # stayed is C05's (and the operation's own) matter
+                    return False
+                if prop == "C10" and a.get("ret", "")[:2] not in ("T.", "E.") and b.get("ret", "")[:2] not in ("T.", "E."):
+                    # nothing was rejected on either side and both return the same: C10's remaining clause is
+                    # "an entry that fits the free space is inserted without evicting anything"
+                    return op_name(opline) in ("ins", "tins") and not drops(b) and bool(drops(a))
+                if prop == "C04":
+                    # a sequential map *given* the evictions that happened: same return value; every entry the
+                    # implementation lacks left through a drop of this very call (evicted — C03's matter); every
+                    # entry it has in excess is one the model evicted (not evicted here — C03 again)
+                    if sorted(ka) == sorted(kb):
+                        return False
+                    if a.get("ret", "")[:2] in ("T.", "E."):
+                        return True     # a rejected insertion evicts nothing
+                    lack = [x for x in kb if x not in ka]
+                    if lack != kb[:len(lack)]:
+                        return True     # not a run of the least-recently-used entries
+                    ga, gb = set(drops(a)), set(drops(b))
+                    ha, hb = set(_items(a.get("hs")) or []), set(_items(b.get("hs")) or [])
+                    return not (all(left(x, ga) or x.split(":")[0] in ha for x in kb if x not in ka)
+                                and all(left(x, gb) or x.split(":")[0] in hb for x in ka if x not in kb))
         if prop == "C04" and op_name(opline) in ("ins", "tins") and set(fields) <= {"ret", "h", "hs", "ev"}:
             # the map is concerned when acceptance or the value handed back differs; *which* rejection an
             # insertion that both sides reject is classified as is C10's subject
@@ -198,7 +233,11 @@ def relevant(prop, fields, a, b, opline=""):
             if prop == "C07":
                 return incoherent
             # C16 / C17 also own everything the scenario line itself (the panic / the forgotten iterator) shows
-            return incoherent or ("!" in opline) or (" it " in opline and opline.split(" | ")[0].rstrip().endswith(" f"))
+            return incoherent or ("!" in opline and "panic" in (a.get("st"), b.get("st"))) or (" it " in opline and opline.split(" | ")[0].rstrip().endswith(" f"))
+        if prop == "C13" and "len" in fields and op_name(opline) not in ("reserve", "tryreserve", "shrink", "shrinkfit", "new", "clone", "clonefrom"):
+            # another number of entries after an insertion / removal: the capacity that follows from it is an echo;
+            # the growth bound is checked on the implementation itself by the C13 monitor
+            return bool(set(fields) - {"cap", "bk", "len", "cur", "ev", "h", "hs", "ord", "rord", "rs", "lru", "mru"})
         if prop == "C01":
             if "max" in fields:
                 return True
@@ -1078,6 +1117,34 @@ def main(root, argv):
         header = ops[start] if ops[start].startswith("# seq") else "# seq 1 hasher=mix"
         body = [strip_hints(l) for l in ops[start + 1: line + 1] if not l.startswith("#")]
         return header, body
+
+    # A disagreement on a *light* line (only len / current_size / the return value are observed, the driver
+    # cannot re-synchronise) may be the late echo of a divergence that no light field showed: the sequence is run
+    # again with every line fully observed, and the disagreement stands for this property only if the full run —
+    # where every line is judged from the implementation's own previous state — still has one that concerns it.
+    refined = []
+    budget = 40
+    dropped_light = 0
+    for (r, d) in dis_hits:
+        if not d["ops"].startswith("L ") or budget <= 0 or "*" in d["props"]:
+            refined.append((r, d))
+            continue
+        budget -= 1
+        header, body = seq_lines(r, d["start"], d["line"])
+        full = [("F" + l[1:]) if l.startswith("L ") else l for l in body]
+        tag = f"lf{40 - budget}"
+        crashed, _, dis2, _ = replay_lines(ctx, [header] + full, tag)
+        if crashed:
+            refined.append((r, d))
+            continue
+        hit2 = [x for x in dis2 if prop in x["props"] or "*" in x["props"]]
+        if hit2:
+            refined.append(({"prefix": os.path.join(ctx.work, f"replay_{tag}")}, hit2[0]))
+        else:
+            dropped_light += 1
+    if dropped_light:
+        ctx.notes.append(f"{dropped_light} disagreement(s) on lightly observed lines did not concern {prop} when the sequence was re-run fully observed")
+    dis_hits = refined
 
     if mon_hits and not violations:
         r, m = mon_hits[0]
